@@ -21,7 +21,11 @@ _SNAP = []
 def base_snap():
   if not _SNAP:
     doc = H.Doc.new()
-    doc.apply([["AddTable", "T", [{"id": "k", "type": "Text"}, {"id": "k2", "type": "Int"},
+    # k2 is a data column with a default ("trigger") formula that yields the type's default: a
+    # value given for it in require / col_values must win over the formula; k is a plain column
+    doc.apply([["AddTable", "T", [{"id": "k", "type": "Text"},
+                                  {"id": "k2", "type": "Int", "isFormula": False, "formula": "0",
+                                   "recalcWhen": 0},
                                   {"id": "v", "type": "Text"}]]])
     doc.apply([["AddTable", "Other", [{"id": "k", "type": "Text"}, {"id": "v", "type": "Text"}]]])
     doc.apply([["BulkAddRecord", "Other", [None, None], {"k": ["a", "b"], "v": ["o1", "o2"]}]])
